@@ -225,6 +225,39 @@ ROUND3.update({
              "missed: a reader failing on a zero-row file was recorded, not asserted; every reader copes on the unchanged tree, so it is asserted now"),
 })
 
+ROUND3.update({
+    "C02e": ("GlueUnSerializer.object strips the string marker with str.replace instead of slicing off the prefix",
+             "a saved string (metadata key or value, string operand of a selection) that contains `st__` beyond the prefix",
+             "missed: metadata strings never contained the marker inside; added"),
+    "C03e": ("LinkCollection.__contains__ returns after looking at the first sub-link only",
+             "a MultiLink with two attributes on a side, then removal of the attribute that is not in the first sub-link",
+             "caught (by the MultiLinks added for seed C03d)"),
+    "C05g": ("RoiSubsetStateNd.move_to clears only the cache of CompositeSubsetState.to_mask",
+             "a region selection inside an InvertState or a MultiOrState, evaluated, then moved",
+             "caught"),
+    "C08f": ("points_inside_poly returns all-False for polygons with fewer than four vertices",
+             "a triangle given as three vertices (not closed)",
+             "caught"),
+    "C10f": ("nansum_with_nan_for_empty counts finite instead of non-NaN values when deciding whether a group is empty",
+             "sum with finite=False over a group whose kept values are all +inf (or all -inf)",
+             "caught"),
+    "C12f": ("coerce_subset_groups iterates over the live list of subsets it deletes from",
+             "a DataCollection protocol-1 record in which one dataset holds two or more plain subsets",
+             "missed: protocol-1 collections were compared as sets of (label, mask) per dataset, which a leftover plain subset satisfies; loaded collections must now be well-formed (every subset in a group of the collection, one per group)"),
+    "C14e": ("BinaryComponentLink.replace_ids examines the right operand only if the left one did not match (`elif`)",
+             "an expression with the re-identified attribute on the right of a sub-expression (or on both sides), then update_id",
+             "caught"),
+    "C15e": ("update_values_from_data assigns _coords directly, so the coordinate links keep the previous transformation",
+             "a refresh from a dataset with another coordinate object, then the coordinate links are read",
+             "missed: coordinates never changed after construction; a refresh with a second generated transformation added"),
+    "C17e": ("same change as C14e (proposed independently for C17)",
+             "see C14e; C17 notices it when a listed derived component can no longer be read",
+             "missed: C17's derived components were `x * 2` only and the shape invariant did not compute them; compound expressions added and derived components are read"),
+    "C19e": ("astropy_tabular_data decides 'fill masked cells with NaN' with np.issubdtype(dtype, float), which is False for float32",
+             "a single-precision column with NaN exported as VO table and loaded back",
+             "missed: float columns were float64 only; float32 columns added"),
+})
+
 sweep = {}
 if len(sys.argv) > 1 and os.path.exists(sys.argv[1]):
     for line in open(sys.argv[1]):
